@@ -275,11 +275,12 @@ CLAIMED = {
                  "C06_nonsame_iff_differ_cfg_partial: non-SAME iff the documents differ under the equivalence the "
                  "configuration induces (modes chosen per list by the model's own lookup), guard kguard_c = F4 only "
                  "(one-to-one identities, identity values of any kind), no guard at all when key/deep is never "
-                 "selected; data equality is proved an equivalence relation and the greedy bag comparison proved to "
+                 "selected; the coordinates at which the lookup is made are those of the named list, also for a list nested "
+                 "directly inside a positionally compared list (repaired off-by-one parentref, positive Example); data equality is proved an equivalence relation and the greedy bag comparison proved to "
                  "decide multiset equality; C06_truthful_sync states what an entry's path and values mean in the "
                  "synchronised modes (left / right index per list), with the witness that positional truthfulness "
                  "fails under --aoh deep.  Tie: pairs identical / derived by edits / unrelated x all mode pairs x "
-                 "configurations; entries compared as multisets of (action, parsed path, lhs, rhs); "
+                 "configurations (rules naming nested lists included; the judge reads the configuration text itself and demands that such a rule is honoured); entries compared as multisets of (action, parsed path, lhs, rhs); "
                  "Differ._same_data compared directly on the root pair and the facing children."),
         "design_ref": "DESIGN.md section 4 (C06), docs/C06.md",
         "note": NOTE_COMMON + "  Python set iteration order is not modelled (entries are compared as multisets); resolved [rules]/[keys] tables are inputs taken from the real DifferConfig.",
